@@ -73,7 +73,7 @@ PROPS["C02"] = {
             "disruptive rule fired and (the script is anomalous or the rule was not the first to fire); distinct = distinct case encodings",
     "essential": {"all": ["anomalous-script", "canonical-script", "limit-reject-configured", "interrupted-by-body-limit", "engine:DetectionOnly", "engine:Off", "disruptive-fired:deny",
                           "disruptive-fired:drop", "disruptive-fired:redirect", "block-inherits-default", "ctl-ruleEngine-switch",
-                          "phase5-after-interruption", "detectiononly+reject-configured"]},
+                          "phase5-after-interruption", "detectiononly+reject-configured", "after-another-transaction"]},
     "assumptions": COMMON_ASSUME + [
         "ctl:ruleEngine switches are generated only as the last rule of a phase (mid-phase behaviour is not stated by the property)",
         "body limits are far above the generated body sizes (C10 owns limit interruptions)",
